@@ -217,6 +217,11 @@ func Snapshot(root string, known Known) ([]Node, error) {
 	var out []Node
 	err := filepath.Walk(root, func(p string, info fs.FileInfo, err error) error {
 		if err != nil {
+			if os.IsNotExist(err) {
+				// a file vanished while we were walking (a goroutine of a failed
+				// session still cleaning up its temporary file): not an entry
+				return nil
+			}
 			return err
 		}
 		rel, _ := filepath.Rel(root, p)
@@ -242,6 +247,9 @@ func Snapshot(root string, known Known) ([]Node, error) {
 			n.T = "reg"
 			b, err := os.ReadFile(p)
 			if err != nil {
+				if os.IsNotExist(err) {
+					return nil
+				}
 				return err
 			}
 			n.Sz = int64(len(b))
